@@ -123,6 +123,8 @@ func (m *muxProvider) Start() {
 				var session *yamux.Session
 				session, err = m.sessionFn(conn)
 				if err != nil {
+					// No session took ownership of the connection, so nothing else will ever close it
+					_ = conn.Close()
 					if m.lifetime.Err() != nil {
 						return
 					}
